@@ -104,6 +104,17 @@ def programs(tier: str):
             if susp:
                 for cancels in (0, 1):
                     yield {"block": dict(b), "outer": False, "cancels": cancels, "batch": 2}
+    # blocks whose context-manager object was prepared ahead of time: at program start outside
+    # everything, or inside the outer scope while the block is entered inside a nested host
+    for b in simple:
+        for outer in (False, True):
+            yield {"block": dict(b, prepared="start"), "outer": outer, "cancels": 0}
+    for h in [x for x in simple if not x.get("disp") and x["ending"] == "return"]:
+        for i in simple:
+            if len(i.get("disp", [])) > 0 and i["disp"][0]["enter"] != "ok":
+                continue
+            yield {"block": dict(h, child=dict(i, prepared="outer")), "outer": True, "cancels": 0}
+            yield {"block": dict(h, child=dict(i, prepared="start")), "outer": False, "cancels": 0}
     # the cancellation injected between two loop iterations
     for b in singles:
         if b["kind"] == "ascope" and len(b.get("disp", [])) <= 1:
